@@ -995,6 +995,10 @@ func (tx *Tx) FindLeafOnDisk(fID int64, rootOff int64, key, newKey []byte) (bn *
 			if err != nil {
 				return nil, err
 			}
+			if item == nil {
+				// the index node points at an unwritten part of the data file
+				return nil, ErrNotFoundKey
+			}
 
 			newKeyTemp := getNewKey(string(item.Meta.bucket), item.Key)
 			if compare(newKey, newKeyTemp) >= 0 {
@@ -1006,6 +1010,9 @@ func (tx *Tx) FindLeafOnDisk(fID int64, rootOff int64, key, newKey []byte) (bn *
 		address := curr.Pointers[i]
 
 		curr, err = ReadNode(filepath, address)
+		if err != nil {
+			return nil, err
+		}
 	}
 
 	return curr, nil
